@@ -73,8 +73,8 @@ prop('C18',
      design_ref='DESIGN.md §5 C18')
 
 prop('C07',
-     modules=['LarkVerif.Lexer', 'LarkVerif.LexModel', 'LarkVerif.LexTiling', 'LarkVerif.LexEmit', 'LarkVerif.LexFast', 'LarkVerif.Props.C07', 'LarkVerif.Extracted'],
-     theorems=['Props.C07.sort_key_is_documented', 'Props.C07.executable_lexer_tiles', 'Props.C07.basic_lexer_emits_the_tiling', 'Props.C07.scan_order_sorted', 'Props.C07.lex_tiles', 'Props.C07.chunking_irrelevant', 'Props.C07.contextual_refines_basic',
+     modules=['LarkVerif.Lexer', 'LarkVerif.LexModel', 'LarkVerif.LexTiling', 'LarkVerif.LexEmit', 'LarkVerif.LexCtxTiling', 'LarkVerif.LexFast', 'LarkVerif.Props.C07', 'LarkVerif.Extracted'],
+     theorems=['Props.C07.sort_key_is_documented', 'Props.C07.executable_lexer_tiles', 'Props.C07.basic_lexer_emits_the_tiling', 'Props.C07.contextual_lexer_tiles', 'Props.C07.scan_order_sorted', 'Props.C07.lex_tiles', 'Props.C07.chunking_irrelevant', 'Props.C07.contextual_refines_basic',
                'Props.C07.keyword_exception', 'Props.C07.keyword_candidates', 'Props.C07.string_terminals_keep_type', 'LexModel.termLe_trans', 'LexModel.termLe_total'],
      fingerprints=['lark/lexer.py:_create_unless', 'lark/lexer.py:Scanner._build_mres', 'lark/lexer.py:Scanner.match', 'lark/lexer.py:BasicLexer.__init__', 'lark/lexer.py:BasicLexer._build_scanner',
                    'lark/lexer.py:BasicLexer.next_token', 'lark/lexer.py:ContextualLexer.__init__', 'lark/lexer.py:ContextualLexer.lex'],
@@ -82,7 +82,7 @@ prop('C07',
           'and sequential LALR grammars x 3 texts x str/bytes: (a) Lark.lex token list or UnexpectedCharacters(pos, allowed) vs the Lean model lexBasic; (b) the contextual lexer driven token by token through '
           'parse_interactive, with the terminal set of each parser state recorded, vs lexCtx (incl. the root-lexer retry that turns the error into UnexpectedToken); (c) with at most one regexp terminal: '
           'basic parse ok => contextual parse ok with the same tree. Regex facts come from individually compiled patterns. Non-trivial = two terminals match at one position; distinct by canonical hash. The basic lexer of the saved-and-loaded parser (Lark.save/Lark.load) is compared with the same model; regexps carry i/m/s/x flags. The maximal width of the documented order is computed by the harness from the regexp with its flags (not read from lark\'s Pattern objects); verbose-flag terminals whose layout changes the width.',
-     not_proved=['the contextual variant lexCtx (per-state sub-lexers, root retry) has only the list lemma contextual_refines_basic; its executable form is tied by correspondence'],
+     not_proved=['for the contextual variant lexCtx the tiling and the error clause are proved (contextual_lexer_tiles); that a successful basic-lexer parse implies the same tokens under the contextual lexer (non-overlapping regexps) rests on the list lemma contextual_refines_basic plus comparison, because it also involves the parser\'s accept sets'],
      assumptions=['Python re: a top-level alternation picks the first matching branch with that branch\'s own preferred length; sre max_width as computed by lark'],
      level_text='Theorems: the scan order is the documented total order (sorted permutation; key re-extracted from source and compared by decide); the lexer loop tiles the text with first-match pieces up to the end or the '
                 'error position; chunking is irrelevant; restricting to a sub-list containing the winner keeps the winner (contextual refines basic); the keyword exception as decision logic. The executable model '
